@@ -336,7 +336,7 @@ func run(c *runner.Ctx) {
 	}
 	n1, n2 := 8, 4
 	if c.Thorough() {
-		n1, n2 = 9, 5
+		n1, n2 = 10, 6
 	}
 	noLoss("ascii", []string{"a", ",", "'", "|", "="}, n1)
 	noLoss("cjk-bytes", []string{"a", ",", "'", "|", "=", "\xe4", "\xb8", "\xad"}, n2)
